@@ -107,6 +107,11 @@ package tchannel
 //@   modifies all
 //@   label forwarded-only-for-live-known-ids
 //@   atcall Receive ok && !item.tomb && (!finished || stopped)
+// (C09: "reports nothing further for that call afterwards" -- byte counts are
+// reported to the stats object only for frames that are forwarded, never for a
+// frame of a tombstoned call or one that lost the race with the timeout)
+//@   label bytes-reported-only-for-forwarded-frames
+//@   atcall reportRelayBytes ok && !item.tomb && (!finished || stopped)
 //@   label only-the-id-is-rewritten
 //@   atcall Receive arg1 == f && f.Header.ID == item.remapID && f.Header.messageType == old(f.Header.messageType) && f.Header.size == old(f.Header.size)
 //@   label unknown-id-is-not-forwarded
